@@ -24,6 +24,7 @@ import (
 	"context"
 	"errors"
 	"fmt"
+	"reflect"
 	"runtime"
 	"sort"
 	"strconv"
@@ -39,8 +40,9 @@ const (
 	verifMRRedOut      = 900
 	verifMRGenPanic    = 100001
 	verifMRRedPanic    = 100003
-	verifMRCtxErr      = -2
+	verifMRCtxErr      = -2 // context.DeadlineExceeded
 	verifMROtherErr    = -3
+	verifMRCtxCanceled = -4 // context.Canceled
 	verifMRInternal    = -1
 	verifMRHookWrite   = "mr.write.guarded"
 	verifMRHookSelect  = "mr.main.select"
@@ -53,6 +55,124 @@ type verifMRErr struct{ id int }
 func (e verifMRErr) Error() string { return "verif: cancel error " + strconv.Itoa(e.id) }
 
 type verifMRPanic struct{ id int }
+
+// The error domain of cancel (identities, see MR.tla "error domain"): besides nil (0) and ordinary error values
+// (1..6999, verifMRErr) the unusual-but-legal ones:
+//   7001        a nil *verifMRPtrErr in an error interface (err != nil holds at the call site)
+//   7002, 7003  a nil map / nil func of a type that implements error
+//   7004..7099  an error value of a type that cannot be compared with ==
+//   7100..7149  fmt.Errorf("%w") wrapper, 7150..7199 errors.Join: the identity is the wrapper's
+//   7200..7299  a pointer error, allocated once per call (the same value may be passed to cancel more than once)
+//   -2, -4      context.DeadlineExceeded / context.Canceled passed to cancel by user code
+type verifMRPtrErr struct{ id int }
+
+func (e *verifMRPtrErr) Error() string {
+	if e == nil {
+		return "verif: typed nil pointer error"
+	}
+	return "verif: pointer error " + strconv.Itoa(e.id)
+}
+
+type verifMRMapErr map[string]int
+
+func (e verifMRMapErr) Error() string { return "verif: map error (nil: " + strconv.FormatBool(e == nil) + ")" }
+
+type verifMRFuncErr func() string
+
+func (e verifMRFuncErr) Error() string {
+	if e == nil {
+		return "verif: nil func error"
+	}
+	return e()
+}
+
+type verifMRSliceErr struct {
+	id   int
+	tags []string
+}
+
+func (e verifMRSliceErr) Error() string { return "verif: uncomparable error " + strconv.Itoa(e.id) }
+
+// errFor: the error value of an identity; one value per identity and call.
+func (c *verifMRCall) errFor(id int) error {
+	if id == 0 {
+		return nil
+	}
+	c.errMu.Lock()
+	defer c.errMu.Unlock()
+	if e, ok := c.errTab[id]; ok {
+		return e
+	}
+	var e error
+	switch {
+	case id == verifMRCtxErr:
+		e = context.DeadlineExceeded
+	case id == verifMRCtxCanceled:
+		e = context.Canceled
+	case id == 7001:
+		var p *verifMRPtrErr
+		e = p
+	case id == 7002:
+		var m verifMRMapErr
+		e = m
+	case id == 7003:
+		var f verifMRFuncErr
+		e = f
+	case id >= 7004 && id < 7100:
+		e = verifMRSliceErr{id: id, tags: []string{"x"}}
+	case id >= 7100 && id < 7150:
+		e = fmt.Errorf("verif: wrapper %d: %w", id, verifMRErr{id + 400})
+	case id >= 7150 && id < 7200:
+		e = errors.Join(verifMRErr{id + 400}, verifMRErr{id + 500})
+	case id >= 7200 && id < 7300:
+		e = &verifMRPtrErr{id}
+	default:
+		e = verifMRErr{id}
+	}
+	c.errTab[id] = e
+	return e
+}
+
+// identify: WHICH error came back - the identity of an error value passed to cancel in this call (compared as
+// values, never unwrapped), else the library's sentinels / context errors, else "some other error".
+func (c *verifMRCall) identify(err error) int {
+	switch v := err.(type) { // == on these dynamic types would panic or is meaningless: identify by type and content
+	case verifMRMapErr:
+		if v == nil {
+			return 7002
+		}
+		return verifMROtherErr
+	case verifMRFuncErr:
+		if v == nil {
+			return 7003
+		}
+		return verifMROtherErr
+	case verifMRSliceErr:
+		return v.id
+	}
+	if reflect.TypeOf(err).Comparable() {
+		c.errMu.Lock()
+		for id, e := range c.errTab {
+			if reflect.TypeOf(e).Comparable() && e == err {
+				c.errMu.Unlock()
+				return id
+			}
+		}
+		c.errMu.Unlock()
+	}
+	switch {
+	case errors.Is(err, ErrCancelWithNil):
+		return 0
+	case errors.Is(err, context.DeadlineExceeded):
+		return verifMRCtxErr
+	case errors.Is(err, context.Canceled):
+		return verifMRCtxCanceled
+	}
+	if me, ok := err.(verifMRErr); ok { // an error value nobody passed to cancel as such (e.g. an unwrapped one)
+		return me.id
+	}
+	return verifMROtherErr
+}
 
 // ---------------------------------------------------------------- goroutine snapshots
 
@@ -150,8 +270,11 @@ type verifMRCall struct {
 	t       *testing.T
 	em      *verifEmitter
 	api     string // mr | void | chan | foreach | finish | finishvoid
-	workers int
+	wset    bool   // WithWorkers(workers) is passed
+	workers int    // the raw option value: any int
 	nitems  int
+	errMu   sync.Mutex
+	errTab  map[int]error
 
 	ctx       context.Context
 	ctxCancel context.CancelFunc
@@ -165,6 +288,7 @@ type verifMRCall struct {
 	actors map[string]*verifMRActor
 	autoCh chan struct{} // closed when every gate is open
 	stall  chan struct{} // free mode: closed when stalls end
+	stall1 chan struct{} // free mode: a first-phase stall, closed the first time nothing else can move (or the call returned)
 	plan   func(name string, item int) []verifMROp
 	yieldy int
 
@@ -190,9 +314,10 @@ func verifMRApiClass(api string) string {
 	return "foreach"
 }
 
-func newVerifMRCall(t *testing.T, em *verifEmitter, api string, workers int, useCtx bool) *verifMRCall {
-	c := &verifMRCall{t: t, em: em, api: api, workers: workers, useCtx: useCtx, actors: map[string]*verifMRActor{},
-		autoCh: make(chan struct{}), stall: make(chan struct{}), aux: map[int64]bool{}, hooks: map[string]chan struct{}{},
+func newVerifMRCall(t *testing.T, em *verifEmitter, api string, wset bool, workers int, useCtx bool) *verifMRCall {
+	c := &verifMRCall{t: t, em: em, api: api, wset: wset, workers: workers, useCtx: useCtx, actors: map[string]*verifMRActor{},
+		errTab: map[int]error{},
+		autoCh: make(chan struct{}), stall: make(chan struct{}), stall1: make(chan struct{}), aux: map[int64]bool{}, hooks: map[string]chan struct{}{},
 		ctxAt: -1}
 	c.ctx = context.Background()
 	if useCtx {
@@ -225,7 +350,7 @@ func (c *verifMRCall) endCtx() {
 
 func (c *verifMRCall) options() []Option {
 	var o []Option
-	if c.workers != 0 {
+	if c.wset {
 		o = append(o, WithWorkers(c.workers))
 	}
 	if c.useCtx {
@@ -234,16 +359,13 @@ func (c *verifMRCall) options() []Option {
 	return o
 }
 
-func (c *verifMRCall) effWorkers() int {
-	switch {
-	case c.api == "finish" || c.api == "finishvoid":
-		return c.nitems
-	case c.workers == 0:
-		return defaultWorkers
-	case c.workers < minWorkers:
-		return minWorkers
+// workerCfg: the worker configuration as the caller wrote it (what it means is the spec's business):
+// was a count given, which, and the package's default. Finish/FinishVoid: the count is the number of functions.
+func (c *verifMRCall) workerCfg() (bool, int) {
+	if c.api == "finish" || c.api == "finishvoid" {
+		return true, c.nitems
 	}
-	return c.workers
+	return c.wset, c.workers
 }
 
 func (c *verifMRCall) regAux() func() {
@@ -293,6 +415,8 @@ func (c *verifMRCall) next(a *verifMRActor) verifMROp {
 		switch op.A {
 		case "stall":
 			<-c.stall
+		case "stall1":
+			<-c.stall1
 		case "yield":
 			for i := 0; i < op.E; i++ {
 				runtime.Gosched()
@@ -307,12 +431,24 @@ func (c *verifMRCall) next(a *verifMRActor) verifMROp {
 
 func (c *verifMRCall) doCancel(cancel func(error), e int) {
 	c.emit(verifEv{"e": "cancelStart", "err": e})
-	if e == 0 {
-		cancel(nil)
-	} else {
-		cancel(verifMRErr{e})
-	}
+	cancel(c.errFor(e))
 	c.emit(verifEv{"e": "cancelEnd"})
+}
+
+// openStall1 ends the first-phase stalls (functions that wait until nothing else can move, then go on while the
+// second-phase stalls still hold).
+func (c *verifMRCall) openStall1() {
+	c.mu.Lock()
+	c.openStall1Locked()
+	c.mu.Unlock()
+}
+
+func (c *verifMRCall) openStall1Locked() {
+	select {
+	case <-c.stall1:
+	default:
+		close(c.stall1)
+	}
 }
 
 // ---- user functions
@@ -361,9 +497,6 @@ func (c *verifMRCall) mapper(item int, w Writer[int], cancel func(error)) {
 				continue
 			}
 			e := op.E
-			if c.steer {
-				e = item
-			}
 			if c.api == "finish" {
 				// returning an error IS the cancellation: the library calls cancel(err) after fn returned
 				if e == 0 {
@@ -371,7 +504,7 @@ func (c *verifMRCall) mapper(item int, w Writer[int], cancel func(error)) {
 				}
 				c.emit(verifEv{"e": "cancelStart", "err": e})
 				c.emit(verifEv{"e": "mapEnd", "i": item, "how": "ret", "p": 0})
-				cancel(verifMRErr{e})
+				cancel(c.errFor(e))
 				return
 			}
 			c.doCancel(cancel, e)
@@ -428,11 +561,7 @@ func (c *verifMRCall) reducer(pipe <-chan int, w Writer[int], cancel func(error)
 			w.Write(verifMRRedOut)
 			c.emit(verifEv{"e": "redWriteEnd"})
 		case "cancel":
-			e := op.E
-			if c.steer {
-				e = 0
-			}
-			c.doCancel(cancel, e)
+			c.doCancel(cancel, op.E)
 		case "panic":
 			c.emit(verifEv{"e": "redEnd", "how": "panic", "p": verifMRRedPanic})
 			panic(verifMRPanic{verifMRRedPanic})
@@ -456,16 +585,8 @@ func (c *verifMRCall) classify(val int, err error) (string, int) {
 		return "noout", 0
 	case errors.Is(err, ErrReduceNoOutput):
 		return "noout", 0
-	case errors.Is(err, ErrCancelWithNil):
-		return "err", 0
-	case errors.Is(err, context.DeadlineExceeded), errors.Is(err, context.Canceled):
-		return "err", verifMRCtxErr
 	}
-	var me verifMRErr
-	if errors.As(err, &me) {
-		return "err", me.id
-	}
-	return "err", verifMROtherErr
+	return "err", c.identify(err)
 }
 
 // invoke runs the library call on the current goroutine and logs how it came back.
@@ -547,8 +668,9 @@ func (c *verifMRCall) invoke(reg chan struct{}) {
 }
 
 func (c *verifMRCall) start() {
-	c.emit(verifEv{"e": "reset", "api": verifMRApiClass(c.api), "workers": c.effWorkers(), "call": c.api,
-		"ctx": c.useCtx, "steer": c.steer})
+	wset, wopt := c.workerCfg()
+	c.emit(verifEv{"e": "reset", "api": verifMRApiClass(c.api), "wset": wset, "wopt": wopt, "defw": defaultWorkers,
+		"call": c.api, "ctx": c.useCtx, "steer": c.steer})
 	reg := make(chan struct{})
 	go c.invoke(reg)
 	<-reg // the caller is registered: from now on the call is never mistaken for quiescent before it started
@@ -649,6 +771,7 @@ func (c *verifMRCall) finish() {
 	default:
 		close(c.autoCh)
 	}
+	c.openStall1Locked()
 	select {
 	case <-c.stall:
 	default:
